@@ -356,3 +356,39 @@ def st(ctx):
 
 
 RULES.append(st)
+
+
+@rule("R6", doc="a derived self-symmetry is accepted only when the variant's whole name-free shape equals that of the stored node")
+def r6(ctx):
+    crate = ctx.lib()
+    sw = set(C.slot_writers(crate))
+    leaders = set(C.leader_union_functions(crate)) | set(C.leader_helpers(crate))
+    n = 0
+    for b in crate.fns():
+        if b.id in leaders or b.id in sw:
+            continue
+        adds = [c for c in b.all_calls() if c.callee and c.callee.is_("add", "group::Group") and c.args and role_mentions_field(c.body.role_of_operand(c.args[0]), "classes")]
+        for c in adds:
+            n += 1
+            good = []
+            for e, cond in C.conditions_at(c.body, c.bb):
+                if cond[0] != "eq":
+                    continue
+                sides = [strip_role(x) for x in cond[1:]]
+
+                def whole_shape(r):
+                    return isinstance(r, tuple) and r[0] == "field" and r[2] == "0" and isinstance(strip_role(r[1]), tuple) and strip_role(r[1])[0] == "call" and strip_role(r[1])[1] == "weak_shape"
+                if all(whole_shape(x) for x in sides):
+                    var = [role_mentions_call(x, "next") and any(isinstance(y, tuple) and y[0] == "call" and "variants" in y[1] for y in role_walk(x)) for x in sides]
+                    if var.count(True) == 1:
+                        good.append(e)
+            ctx.check(bool(good), "whole-shape-equality:" + C.fkey(b),
+                      "%s adds a symmetry only under `weak_shape(stored node).0 == weak_shape(variant).0` (whole nodes, bound slots included)" % C.short(b.id),
+                      "%s adds a permutation to a class group without having compared the whole weak shape of the group-compatible variant with that of the stored node "
+                      "(guards seen: %s): comparing a projection (e.g. only the public slot occurrences) accepts variants that differ in how bound slots are arranged, and the permutation read off "
+                      "them is not a symmetry of the class" % (C.short(b.id), [(k[0], [role_str(x)[:70] for x in k[1:]]) for _, k in C.conditions_at(c.body, c.bb) if k[0] in ("eq", "ne")]),
+                      where_of(c.body, c.bb))
+    ctx.floor("self-symmetry add sites", n, 1)
+
+
+RULES.append(r6)
